@@ -122,6 +122,9 @@ def scene_description(r):
     vis = np.asarray(r.visibility_matrix)
     vi = np.array([s.cartesian for s in r._brdf_incoming_directions])
     vo = np.array([s.cartesian for s in r._brdf_outgoing_directions])
+    # directions only: the solver picks the sample nearest IN ANGLE whatever lengths are stored
+    vi = vi / np.linalg.norm(vi, axis=-1, keepdims=True)
+    vo = vo / np.linalg.norm(vo, axis=-1, keepdims=True)
     tab = np.real(np.array(r._brdf))
     tidx = np.asarray(r._brdf_index)
     att = np.zeros(tab.shape[-1]) if r._air_attenuation is None else np.asarray(r._air_attenuation)
